@@ -1,9 +1,49 @@
 """Developer tool: build /verif/seeded/<id>/ (patch.diff, demo.py, meta.json) from build/muts + build/mutants.log."""
 import json, os, shutil, sys
 log = {}
+first = {}
 for line in open('/verif/build/mutants.log'):
     d = json.loads(line)
+    first.setdefault(d['mutant'], d)
     log[d['mutant']] = d          # later lines (re-runs) win
+STRENGTHENED = {
+    "C01_2": "missed at first (every family built its automaton once and never edited it); added condition c01_edit "
+             "(query, remove_transition, query again)",
+    "C02_2": "missed at first (needs >= 5 states over 2 symbols: no automaton of the exhaustive families triggers it); "
+             "added condition c02_minimal_52, a slice of the 5-state partial DFAs (a-chain + arbitrary b-transitions)",
+    "C03_2": "missed at first (C03 operands had 2 states); added condition c03_shapes with three-state operands whose "
+             "final state lies on a cycle through another state",
+    "C14_1": "missed at first (the production order that triggers it was not among the list orders of the quick "
+             "shards); added list-order shards for the left-recursive shapes to c14_sets",
+    "C16_1": "missed at first (output symbols were single characters); added condition c16_outputs with output words "
+             "that print alike when joined",
+    "C16_2": "the sub-agent's patch no longer applied after fix afa9f6e; re-expressed on the fixed lines, then caught",
+    "C17_1": "missed at first (needs a chain of productions, 7 rules over 6 variables); added condition c17_chain "
+             "(the chain and 7 variants in 196 rule orders)",
+    "C13_2": "the sub-agent's patch no longer applied after fix 26c39e0; re-expressed on the fixed code, then caught "
+             "(the native dry-run of the harness had caught the original patch before the fix)",
+    "C19_1": "as C13_2 (same site); the original patch was first missed by the C19 harness natively (the new state "
+             "sorted after the old ones) and caught after the PDA subjects / SUBJECT:new_start_state_0 op were added",
+    "C05_1": "missed by the first C05 families in the native dry-run; caught after the composite combinators were added",
+    "C05_2": "missed by the first C05 families in the native dry-run (needs >= 2 levels of redundant parentheses); "
+             "caught after c05_wrapped was added",
+    "C07_1": "missed in the native dry-run ({0,n} not in the token table); caught after {0,2} was added",
+    "C07_2": "missed in the native dry-run (no form feed among the test strings, no '.' token in quick); caught after "
+             "c07_wide and the control characters were added",
+    "C08_1": "missed in the native dry-run (needs 3 variables); caught after the 4-variable chain family was added",
+    "C08_2": "missed in the native dry-run (symbols declared in the constructor only); caught after c08_declared",
+    "C09_1": "missed in the native dry-run (needs bodies of length 4 in quick); caught after c09_b4s",
+    "C09_2": "missed in the native dry-run (needs 4 variables); caught after c09_chain / c12_chain",
+    "C11_1": "missed in the native dry-run of the quick family (no grammar generating epsilon); caught after the "
+             "S -> eps shards were added",
+    "C12_1": "missed in the native dry-run (every query ran on a fresh object); caught after c12_sequence and the "
+             "extra C19 grammar subjects",
+    "C19_2": "missed in the native dry-run (alphabet not in the snapshot; subject never a right operand); caught "
+             "after other_difference_subject and the alphabet snapshot",
+    "C19_3": "missed in the native dry-run (no subject with a nullable variable that does not generate epsilon); "
+             "caught after the subject S -> A b, A -> a | eps was added",
+    "C20_1": "missed in the native dry-run (no falsy symbol); caught after the symbols 0 and '' were added",
+}
 root = '/verif/build/muts'
 out = '/verif/seeded'
 os.makedirs(out, exist_ok=True)
@@ -36,6 +76,8 @@ for name in sorted(os.listdir(root)):
                    "applied the 289 tests must pass and demo.py must exit non-zero",
             "demo_exit_clean": conf.get('demo_clean'), "tests_with_patch": conf.get('tests'),
             "demo_exit_patched": conf.get('demo_patched'), "ok": conf.get('ok')},
+        "first_check_run_exit": (first.get(name, {}).get('check', {}).get(prop, {}) or {}).get('exit'),
+        "strengthening": STRENGTHENED.get(name),
         "check_run": {
             "cmd": "VF_REPO=<scratch worktree with the patch> ./vf check %s --tier quick" % prop,
             "exit": res.get('exit'), "wall_s": res.get('wall_s'),
@@ -43,8 +85,10 @@ for name in sorted(os.listdir(root)):
             "first_lines": res.get('lines', [])[:2], "first_counterexample": (res.get('cex') or [None])[0]},
     }
     json.dump(m, open(os.path.join(dst, 'meta.json'), 'w'), indent=1)
-    rows.append((name, prop, conf.get('ok'), res.get('exit'), res.get('wall_s'), (meta.get('summary') or '')[:110]))
-print("| id | caught by quick check | what was seeded |")
-print("|---|---|---|")
-for name, prop, ok, ex, wall, summ in rows:
-    print("| %s | %s | %s |" % (name, {1: "yes (%ss)" % wall, 0: "NO", None: "not run"}.get(ex, "exit %s" % ex), summ.replace("|", "\\|")))
+    rows.append((name, prop, conf.get('ok'), res.get('exit'), res.get('wall_s'), (meta.get('summary') or '')[:110],
+                 STRENGTHENED.get(name)))
+print("| id | caught by `vf check <prop> --tier quick` | what was seeded | history |")
+print("|---|---|---|---|")
+for name, prop, ok, ex, wall, summ, st in rows:
+    print("| %s | %s | %s | %s |" % (name, {1: "yes (%ss)" % wall, 0: "NO", None: "not run"}.get(ex, "exit %s" % ex),
+                                   summ.replace("|", "\\|"), (st or "caught as first built").replace("|", "\\|")))
